@@ -10,7 +10,8 @@
 
    Contents
      1. supported_general : supportedness for programs with ARBITRARY bodies (conditional literals, aggregates)
-        and atom / constant / condition-free bound-free choice heads.
+        and atom / constant / condition-free choice heads with ARBITRARY bounds (Sem/Sat.v evaluates the bounds
+        of a choice in the total interpretation only, as clingo does, so they play no role for supportedness).
      2. the AST of the three rules, and the model run on concrete programs.
      3. next_rules_meaning (uses Meta.Chain.next_exact).
      4. min_rule_meaning, and the combination next_pred_meaning.
@@ -31,16 +32,16 @@ Open Scope list_scope.
 Inductive gen_head : head -> Prop :=
 | GH_atom n args e : gen_head (HLit (Lit NoSign (ASym (TFun n args e))))
 | GH_bool sg b : gen_head (HLit (Lit sg (ABool b)))
-| GH_choice es :
+| GH_choice lg es rg :
     (forall c, In c es -> exists n args e, c = (Lit NoSign (ASym (TFun n args e)), [])) ->
-    gen_head (HAgg None es None).
+    gen_head (HAgg lg es rg).
 
 (* decidable version *)
 Definition gen_headb (h: head) : bool :=
   match h with
   | HLit (Lit NoSign (ASym (TFun _ _ _))) => true
   | HLit (Lit _ (ABool _)) => true
-  | HAgg None es None => forallb Ground.simple_choice_elem es
+  | HAgg _ es _ => forallb Ground.simple_choice_elem es
   | _ => false
   end.
 Definition gen_stmtb (st: stmt) : bool := match st with SRule _ h _ => gen_headb h | _ => true end.
@@ -52,7 +53,7 @@ Proof.
   - destruct a as [t|t gs|b| | |]; try (destruct sg; discriminate).
     + destruct sg; try discriminate. destruct t; try discriminate. intros _. constructor.
     + intros _. constructor.
-  - destruct lg; try discriminate. destruct rg; try discriminate. simpl. intro F.
+  - simpl. intro F.
     constructor. rewrite forallb_forall in F. intros c Hc. apply Ground.simple_choice_elem_inv. apply F. exact Hc.
 Qed.
 
@@ -66,8 +67,8 @@ Qed.
 Inductive head_derives (G: list string) (s: subst) : head -> gatom -> Prop :=
 | HD_atom n args e vs : eval_list s args = Some vs ->
     head_derives G s (HLit (Lit NoSign (ASym (TFun n args e)))) (n, vs)
-| HD_choice es n args e th vs : In (Lit NoSign (ASym (TFun n args e)), []) es -> agree_on G s th ->
-    eval_list th args = Some vs -> head_derives G s (HAgg None es None) (n, vs).
+| HD_choice lg es rg n args e th vs : In (Lit NoSign (ASym (TFun n args e)), []) es -> agree_on G s th ->
+    eval_list th args = Some vs -> head_derives G s (HAgg lg es rg) (n, vs).
 
 (* the predicates (name, arity) a head can derive *)
 Definition condlit_names (c: condlit) : list (string * nat) :=
@@ -89,7 +90,7 @@ Qed.
 
 Lemma head_derives_names G s h n vs : head_derives G s h (n, vs) -> In (n, List.length vs) (head_names h).
 Proof.
-  intros D. inversion D as [n0 args e vs0 Ev|es n0 args e th vs0 Hin Ag Ev]; subst.
+  intros D. inversion D as [n0 args e vs0 Ev|lg es rg n0 args e th vs0 Hin Ag Ev]; subst.
   - simpl. left. rewrite (eval_list_length _ _ _ Ev). reflexivity.
   - simpl. apply in_flat_map. exists (Lit NoSign (ASym (TFun n args e)), []). split; [exact Hin|].
     unfold condlit_names. simpl. left. rewrite (eval_list_length _ _ _ Ev). reflexivity.
@@ -159,7 +160,7 @@ Proof.
     pose proof (PT _ Hin) as RT. simpl in RT. simpl. intros s. destruct (RT s) as [_ RTs]. split; [|exact RTs].
     intros BH. pose proof (body_sat_persist _ _ _ _ _ S BH) as BT. specialize (RTs BT).
     pose proof (Frag _ _ _ Hin) as GH. set (G := gvars_rule h b) in *.
-    inversion GH as [n args e E|sg c E|es Simple E]; subst h.
+    inversion GH as [n args e E|sg c E|lg es rg Simple E]; subst h.
     - (* atom head *)
       change (lit_sat G H T s (Lit NoSign (ASym (TFun n args e)))).
       change (lit_sat G T T s (Lit NoSign (ASym (TFun n args e)))) in RTs.
@@ -170,22 +171,13 @@ Proof.
       change (lit_sat G H T s (Lit sg (ABool c))). change (lit_sat G T T s (Lit sg (ABool c))) in RTs.
       rewrite lit_sat_bool in *. exact RTs.
     - (* choice head *)
-      simpl in RTs. destruct RTs as [_ [AT _]]. simpl. split; [|split; [|exact AT]].
-      + intros c th Hc Ag _. destruct (Simple c Hc) as [n [args [e ->]]]. simpl fst.
-        destruct (classic (lit_sat G T T th (Lit NoSign (ASym (TFun n args e))))) as [Y|N]; [left|right; exact N].
-        apply lit_sat_fun in Y. destruct Y as [vs [Ev Tv]]. simpl in Tv.
-        apply lit_sat_fun. exists vs. split; [exact Ev|]. simpl.
-        apply (Keep line _ b s (n, vs) Hin BT); [|exact Tv].
-        eapply HD_choice; eauto.
-      + destruct AT as [v [[l [[ND En] _]] _]].
-        assert (Sub: forall tv, choice_tuples G H T s es tv -> In tv l).
-        { intros tv [c [th [n [args [ext [vs [Hc [Ag [Ef [Ev [Etv [Cs Hv]]]]]]]]]]]]. apply En.
-          exists c, th, n, args, ext, vs. repeat (split; [assumption|]). split.
-          - eapply CleanupSpec.lits_sat_persist_proof; [exact S|exact Cs].
-          - apply S. exact Hv. }
-        destruct (Ground.finite_enum l (choice_tuples G H T s es) Sub) as [l' [ND' En']].
-        exists (SNum (Z.of_nat (List.length l'))). split; [|split; exact Logic.I].
-        exists l'. split; [split; assumption|reflexivity]. }
+      simpl in RTs. destruct RTs as [_ AT]. simpl. split; [|exact AT].
+      intros c th Hc Ag _. destruct (Simple c Hc) as [n [args [e ->]]]. simpl fst.
+      destruct (classic (lit_sat G T T th (Lit NoSign (ASym (TFun n args e))))) as [Y|N]; [left|right; exact N].
+      apply lit_sat_fun in Y. destruct Y as [vs [Ev Tv]]. simpl in Tv.
+      apply lit_sat_fun. exists vs. split; [exact Ev|]. simpl.
+      apply (Keep line _ b s (n, vs) Hin BT); [|exact Tv].
+      eapply HD_choice; eauto. }
   assert (FH: facts_sat H I).
   { intros x Hx. split; [apply FT; exact Hx|]. intros ->. apply Hno. left. exact Hx. }
   destruct (Min H S PS FH a Ta) as [_ Ne]. apply Ne. reflexivity.
@@ -439,7 +431,7 @@ Definition least_in (T: interp) (dom: string) (v: sym) : Prop :=
 (* Hypotheses:
    - sym_lt is a strict total order (only irreflexivity and transitivity are used here; totality is needed to
      obtain the sorted list D, see [dom_sorted_exists]);
-   - every rule head of P is an atom, a constant or a condition-free bound-free choice;
+   - every rule head of P is an atom, a constant or a condition-free choice (any bounds);
    - the two next-rules are in P and they are the only rules whose head mentions nx/2; no nx-facts in I;
    - D is the strictly sorted list of dom's extension in T (arbitrary symbols);
    - mn holds in T exactly for the least element of dom (discharged by [min_rule_meaning]).
